@@ -135,6 +135,15 @@ def run : Runner
       let s1 := ConvertCashToSlp a tnet
       let s2 := match s1 with | .ok x => ConvertSlpToCash x tnet | .error e => .error e
       pure { model := s!"{tok s1} {tok s2} {tok (ConvertSlpToCash a tnet)}" }
+  | "custnet", [_, pfx, _kind, h], _ => do
+    -- caller-defined, unregistered parameters (a copy of mainnet with another CashAddr prefix): an address is for the
+    -- network whose prefix it carries; the string form round-trips when the prefix is lower case (the decoder compares
+    -- the lower-cased input with the prefix as given, so a prefix with capitals can be encoded but never decoded)
+    let pfx ← bytes? pfx
+    let h ← bytes? h
+    if h.length != 20 then none
+    let lower := pfx.all fun c => !(c ≥ 65 && c ≤ 90)
+    pure { model := if lower then "1 1 1 1 1" else "1 1 E", prop := "spec" }
   | "pk2pkh", [_, net, ser], _ => do
     let net ← nets[(← nat? net)]?
     let ser ← bytes? ser
